@@ -121,6 +121,17 @@ def rule_a(ctx, ix):
     for st in generic:
         txt = unparse(expand_locals(do.node, st.value)).replace(' ', '')
         p = do.params[1]
+        v_ = expand_locals(do.node, st.value)
+        if isinstance(v_, ast.Call) and isinstance(v_.func, ast.Attribute) and isinstance(v_.func.value, ast.Name) and \
+                v_.func.value.id in (do.self_name, 'cls') and len(v_.args) == 1 and unparse(v_.args[0]) == p:
+            # the tag is computed by a helper of the class (fixed names for a few types first): its general answer is its
+            # last, unconditional return
+            h_ = ser.resolve_func(v_.func.attr)
+            if h_ is not None and len(h_.params) >= 2:
+                tops = [x for x in body_stmts(h_.node) if isinstance(x, ast.Return) and x.value is not None]
+                if tops:
+                    txt = unparse(tops[-1].value).replace(' ', '')
+                    p = h_.params[-1]
         ok = ('type(%s).__module__' % p in txt and 'type(%s).__name__' % p in txt and
               txt.index('__module__') < txt.index('__name__'))
     ctx.ob(R, do.construct, '_type records module.name of type(obj)', ok,
